@@ -154,19 +154,57 @@ def _r1(model, res, m, c, methods, store):
                           'listener is not called with exactly the emitted arguments (*%s)' % va,
                           case=src(call), func=c.name + '.emit')
         kw = [k for k in call.keywords if k.arg is None]
-        ok_ctx = len(kw) == 1 and len(call.keywords) == 1 and _derived_field(kw[0].value, tnames, 'ctx', fields, 1)
-        ok_fn = _derived_field(call.func, tnames, 'fn', fields, 0)
+        ok_ctx = len(kw) == 1 and len(call.keywords) == 1 and _derived_field(kw[0].value, tnames, 'ctx', fields, 1, lp.target)
+        ok_fn = _derived_field(call.func, tnames, 'fn', fields, 0, lp.target)
         res.ob('R1', site, 'listener function and bound context taken from the same listener record', ok_ctx and ok_fn, src(call))
         if not (ok_ctx and ok_fn):
             res.violation('R1', '%s:%s.emit:ctx-forwarding' % (m.name, c.name), m.where(call),
                           'listener is not called as record.fn(*args, **record.ctx)', case=src(call), func=c.name + '.emit')
 
 
-def _derived_field(node, tnames, field, fields, idx):
+def _derived_field(node, tnames, field, fields, idx, target=None):
+    """Is ``node`` the ``field`` of the listener record the loop variable holds?  Accepted spellings: record.<field>,
+    record[<position of field>], or - when the loop target unpacks the record - the name bound at that position."""
+    if fields and field in fields:
+        idx = fields.index(field)
+    if isinstance(target, (ast.Tuple, ast.List)):
+        if isinstance(node, ast.Name) and all(isinstance(e, ast.Name) for e in target.elts):
+            names = [e.id for e in target.elts]
+            return node.id in names and names.index(node.id) == idx and names.count(node.id) == 1
+        return False
     if isinstance(node, ast.Attribute) and isinstance(node.value, ast.Name) and node.value.id in tnames:
-        return node.attr == field or (fields is not None and fields.index(node.attr) == idx if node.attr in (fields or []) else False)
+        return node.attr == field
     if isinstance(node, ast.Subscript) and isinstance(node.value, ast.Name) and node.value.id in tnames:
         return isinstance(node.slice, ast.Constant) and node.slice.value == idx
+    return False
+
+
+def _is_none_test(t, name):
+    """+1 for ``name is None``, -1 for ``name is not None``, 0 otherwise."""
+    if isinstance(t, ast.Compare) and len(t.ops) == 1 and _is_name(t.left, name) and \
+            isinstance(t.comparators[0], ast.Constant) and t.comparators[0].value is None:
+        if isinstance(t.ops[0], ast.Is):
+            return 1
+        if isinstance(t.ops[0], ast.IsNot):
+            return -1
+    return 0
+
+
+def _is_fresh_mapping(n):
+    return (isinstance(n, ast.Dict) and not n.keys) or (isinstance(n, ast.Call) and sa.call_name(n) == 'dict' and not n.args and not n.keywords)
+
+
+def _ctx_or_default(node, ctx_p, func):
+    """``ctx`` itself, or ``ctx`` with only None replaced by a fresh empty mapping (conditional-expression spelling)."""
+    node = sa.resolve_local(func, node) if func is not None else node
+    if _is_name(node, ctx_p):
+        return True
+    if isinstance(node, ast.IfExp):
+        k = _is_none_test(node.test, ctx_p)
+        if k == 1:
+            return _is_fresh_mapping(node.body) and _is_name(node.orelse, ctx_p)
+        if k == -1:
+            return _is_name(node.body, ctx_p) and _is_fresh_mapping(node.orelse)
     return False
 
 
@@ -260,7 +298,7 @@ def _r2(model, res, m, c, methods, store):
         if rec is not None:
             rec = sa.resolve_local(on, rec)
             fn_v, ctx_v = _record_fields(rec, ltype, fields)
-            okrec = _is_name(fn_v, cb_p) and (ctx_p is None or _is_name(ctx_v, ctx_p))
+            okrec = _is_name(fn_v, cb_p) and (ctx_p is None or (ctx_v is not None and _ctx_or_default(ctx_v, ctx_p, on)))
         res.ob('R2', site, 'stored record is (callback, ctx)', okrec, src(rec) if rec is not None else None)
         if not okrec:
             res.violation('R2', key + ':record', m.where(node),
@@ -282,10 +320,11 @@ def _r2(model, res, m, c, methods, store):
             guard_ok = False
             par = m.parent(node)
             if isinstance(par, ast.If) and node in par.body:
-                t = par.test
-                if isinstance(t, ast.Compare) and len(t.ops) == 1 and isinstance(t.ops[0], ast.Is) and \
-                        _is_name(t.left, ctx_p) and isinstance(t.comparators[0], ast.Constant) and t.comparators[0].value is None:
-                    guard_ok = True
+                guard_ok = _is_none_test(par.test, ctx_p) == 1
+            elif isinstance(par, ast.If) and node in par.orelse:
+                guard_ok = _is_none_test(par.test, ctx_p) == -1
+            elif val is not None and _ctx_or_default(val, ctx_p, None):
+                guard_ok = True         # ctx = {} if ctx is None else ctx
             res.ob('R2', site, 'context replaced only when None', guard_ok, src(node))
             if not guard_ok:
                 res.violation('R2', key + ':ctx-rebound', m.where(node),
@@ -389,7 +428,7 @@ def _r3(model, res, m, c, methods, store):
     for r in regs:
         a = list(r.args) + [k.value for k in r.keywords]
         if len(a) >= 2 and _is_name(a[0], name_p) and _is_name(a[1], wname) and \
-                (ctx_p is None or (len(a) >= 3 and _is_name(a[2], ctx_p))):
+                (ctx_p is None or (len(a) >= 3 and _ctx_or_default(a[2], ctx_p, once))):
             okr = True
     if not regs:
         # direct append, same shape as on()
